@@ -27,6 +27,7 @@ FAMILIES = {
     "prims": {"src": "prims.cpp"},
     "tripwire": {"src": "tripwire.cpp"},
     "deferred": {"src": "deferred.cpp"},
+    "c14": {"src": "c14.cpp"},
 }
 
 EXPLORATION_NOTE = ("Trusted base: the vrt runtime's model of std::mutex/timed_mutex/shared_mutex/shared_timed_mutex/condition_variable/atomic "
@@ -53,6 +54,17 @@ PROPS = {
         "assumptions": ["vrt shared-mutex model follows [thread.sharedmutex]", "programs bounded to 4 fibers x 4/6 operations"],
         "stages": [{"family": "locks", "flavour": "plain", "target": "C02", "cases": (400000, 6000000), "maxsec": (40, 400)},
                    {"family": "deferred", "flavour": "plain", "target": "C02d", "cases": (300000, 4000000), "maxsec": (30, 300)}],
+    },
+    "C04": {
+        "level": "exploration",
+        "technique": "property-based testing over (writer/reader program with commits, cancels, handle moves and long-lived snapshots x schedule); oracle = snapshot immutability and liveness, interval bounds and chain membership for every write handle's initial value, real-time publication, commit ledger, payload instance count",
+        "design_ref": "DESIGN.md §5 C04",
+        "text": "Generated cow_guarded writers and readers run under generated schedules; snapshots are re-read after later commits, each write handle's starting value is checked against the sequence of "
+                "committed states with two-sided interval bounds, cancelled data must never become visible, cancel must free the writer lock while the handle object lives on, and every private copy "
+                "is destroyed exactly once. Exploration only.",
+        "assumptions": ["the shared_ptr copy inside the left-right read section is real (unmodelled) code: protocol errors there are the business of C03 and of the real-thread stage",
+                        "payload destruction is exempt from the happens-before check because reference counts are unmodelled; liveness is still checked"],
+        "stages": [{"family": "lrcow", "flavour": "plain", "target": "C04", "cases": (600000, 8000000), "maxsec": (40, 400)}],
     },
     "C05": {
         "level": "exploration",
@@ -139,6 +151,16 @@ PROPS = {
                 "Handle truthiness is compared with the modelled mutex's owner at each return; disabled mode must execute no mutex operation; a try call that blocks shows up as livelock. Exploration only.",
         "assumptions": ["time-outs are generated data: a timed wait gives up after a generated number of scheduler steps (at most 80)", "truthiness of moved-from handles is not asserted"],
         "stages": [{"family": "locks", "flavour": "plain", "target": "C08", "cases": (400000, 6000000), "maxsec": (40, 400)}],
+    },
+    "C14": {
+        "level": "exploration",
+        "technique": "generated freeze points: a writer fiber is suspended after k of its own visible steps (k over the whole operation) and readers must complete solo within a step bound with zero blocking operations; then writer completion after release (deadlock/livelock detector)",
+        "design_ref": "DESIGN.md §5 C14",
+        "text": "For each writer operation (lr modify, cow commit, cow lock+cancel, rcu push_front/push_back/erase) and each generated freeze point inside it, 1-2 readers perform their read acquisition "
+                "(all try forms; full traversal for rcu) while the writer is frozen; any contended lock, condition wait or yield-spin inside the acquisition, or failure to finish, is a violation; the "
+                "thawed writer must finish once handles are released. Exploration over generated (op, freeze point, reader variant, schedule).",
+        "assumptions": ["'visible step' granularity = modelled mutex/atomic/cv operations and payload access windows"],
+        "stages": [{"family": "c14", "flavour": "plain", "target": "C14", "cases": (500000, 6000000), "maxsec": (40, 400)}],
     },
     "C15": {
         "level": "exploration",
